@@ -22,12 +22,12 @@ func propC03() *Property {
 			"a successful json.Decoder.Decode into *map[string]any yields a JSON object",
 		},
 		Rules: []Rule{
-			{ID: "C03.R1", Title: "every return of jtp.Get is classified; success passes all acceptance tests", Floor: 18, Run: c03R1},
+			{ID: "C03.R1", Title: "every return of jtp.Get is classified; success passes all acceptance tests", Floor: 15, Run: c03R1},
 			{ID: "C03.R2", Title: "redirect budget strictly decreases; one request per frame", Floor: 6, Run: c03R2},
-			{ID: "C03.R3", Title: "Location is resolved against the issuing URL; missing Location is an error", Floor: 6, Run: c03R3},
+			{ID: "C03.R3", Title: "Location is resolved against the issuing URL; missing Location is an error", Floor: 4, Run: c03R3},
 			{ID: "C03.R4", Title: "content-type rule in validateHeaders and MediaType.Matches", Floor: 6, Run: c03R4},
 			{ID: "C03.R5", Title: "status line recogniser shape", Floor: 4, Run: c03R5},
-			{ID: "C03.R6", Title: "cache key completeness; no budget-dependent outcome cached", Floor: 4, Run: c03R6},
+			{ID: "C03.R6", Title: "cache key completeness; no budget-dependent outcome cached", Floor: 6, Run: c03R6},
 		},
 	}
 }
@@ -836,10 +836,35 @@ func regexpPattern(P *Program, pkg, name string) (string, token.Pos) {
 			if !ok || st.Addr != ssa.Value(g) {
 				return
 			}
-			if call, ok := st.Val.(*ssa.Call); ok && (isLibCall(&call.Call, "regexp", "", "MustCompile") || isLibCall(&call.Call, "regexp", "", "Compile")) {
-				if s, ok := constString(call.Call.Args[0]); ok {
+			call, ok := st.Val.(*ssa.Call)
+			if !ok {
+				return
+			}
+			pos = call.Pos()
+			if isLibCall(&call.Call, "regexp", "", "MustCompile") || isLibCall(&call.Call, "regexp", "", "Compile") {
+				if s, ok := evalConstString(call.Call.Args[0], nil, 0); ok {
 					pat = s
-					pos = call.Pos()
+				}
+				return
+			}
+			// a helper that compiles a pattern assembled from its (constant) arguments
+			if sc := call.Call.StaticCallee(); sc != nil && P.IsServitorFunc(sc) {
+				env := map[*ssa.Parameter]ssa.Value{}
+				for i, p := range sc.Params {
+					if i < len(call.Call.Args) {
+						env[p] = call.Call.Args[i]
+					}
+				}
+				for _, b := range sc.Blocks {
+					ret, ok := b.Instrs[len(b.Instrs)-1].(*ssa.Return)
+					if !ok || len(ret.Results) == 0 {
+						continue
+					}
+					if mc, ok := ret.Results[0].(*ssa.Call); ok && (isLibCall(&mc.Call, "regexp", "", "MustCompile")) {
+						if s, ok := evalConstString(mc.Call.Args[0], env, 0); ok {
+							pat = s
+						}
+					}
 				}
 			}
 		})
@@ -847,11 +872,61 @@ func regexpPattern(P *Program, pkg, name string) (string, token.Pos) {
 	return pat, pos
 }
 
+// evalConstString folds a string expression made of constants, concatenation,
+// parameters bound to constants at the (single) call site, and
+// regexp.QuoteMeta / strings.ToLower of such.
+func evalConstString(v ssa.Value, env map[*ssa.Parameter]ssa.Value, d int) (string, bool) {
+	if d > 12 {
+		return "", false
+	}
+	if s, ok := constString(v); ok {
+		return s, true
+	}
+	switch x := v.(type) {
+	case *ssa.BinOp:
+		if x.Op == token.ADD {
+			a, ok1 := evalConstString(x.X, env, d+1)
+			b, ok2 := evalConstString(x.Y, env, d+1)
+			return a + b, ok1 && ok2
+		}
+	case *ssa.Parameter:
+		if env != nil {
+			if a, ok := env[x]; ok {
+				return evalConstString(a, nil, d+1)
+			}
+		}
+	case *ssa.Call:
+		if isLibCall(&x.Call, "regexp", "", "QuoteMeta") {
+			if s, ok := evalConstString(x.Call.Args[0], env, d+1); ok {
+				return regexpQuoteMeta(s), true
+			}
+		}
+		if isLibCall(&x.Call, "strings", "", "ToLower") {
+			if s, ok := evalConstString(x.Call.Args[0], env, d+1); ok {
+				return strings.ToLower(s), true
+			}
+		}
+	}
+	return "", false
+}
+
+func regexpQuoteMeta(s string) string {
+	var b strings.Builder
+	for _, r := range s {
+		if strings.ContainsRune(`\.+*?()|[]{}^$`, r) {
+			b.WriteByte('\\')
+		}
+		b.WriteRune(r)
+	}
+	return b.String()
+}
+
 func c03R5(c *Ctx) {
 	P := c.P
 	pat, pos := regexpPattern(P, "servitor/jtp", "statusLineRegexp")
 	if pat == "" {
-		broken("statusLineRegexp is not compiled from a constant pattern")
+		c.bad("servitor/jtp.statusLineRegexp/pattern", P.Pos(pos), "servitor/jtp.statusLineRegexp", "the status line pattern is not a compile-time constant: its shape cannot be checked")
+		return
 	}
 	re, err := syntax.Parse(pat, syntax.Perl)
 	if err != nil {
@@ -900,6 +975,47 @@ func c03R5(c *Ctx) {
 	}
 	walk(re)
 	c.check(okCap && ncap == 1, where+"/capture", P.Pos(pos), where, "one capture: exactly three ASCII digits", "the status capture is not exactly three ASCII digits (or there are other captures)")
+	// the header recognisers: a whole line, the header's own name at the very
+	// start (case-insensitive), a colon, the trimmed value as the only capture
+	for hdr, gname := range map[string]string{"content-type": "contentTypeRegexp", "location": "locationRegexp"} {
+		hp, hpos := regexpPattern(P, "servitor/jtp", gname)
+		hwhere := "servitor/jtp." + gname
+		if hp == "" {
+			c.bad(hwhere+"/pattern", P.Pos(hpos), hwhere, "the pattern recognising the "+hdr+" header is not a compile-time constant (or constant-foldable): its shape cannot be checked")
+			continue
+		}
+		hre, err := syntax.Parse(hp, syntax.Perl)
+		if err != nil {
+			c.bad(hwhere+"/pattern", P.Pos(hpos), hwhere, "the "+hdr+" pattern does not parse")
+			continue
+		}
+		hre = hre.Simplify()
+		hs := []*syntax.Regexp{hre}
+		if hre.Op == syntax.OpConcat {
+			hs = hre.Sub
+		}
+		anchoredStart := len(hs) > 0 && hs[0].Op == syntax.OpBeginText
+		anchoredEnd := len(hs) > 0 && hs[len(hs)-1].Op == syntax.OpEndText
+		// after ^: the literal name (fold-case), then ':'
+		nameOK := false
+		if anchoredStart && len(hs) > 1 {
+			lit := ""
+			fold := true
+			for _, part := range hs[1:] {
+				if part.Op != syntax.OpLiteral {
+					break
+				}
+				lit += string(part.Rune)
+				if part.Flags&syntax.FoldCase == 0 && strings.ToLower(string(part.Rune)) != strings.ToUpper(string(part.Rune)) {
+					fold = false
+				}
+			}
+			nameOK = strings.EqualFold(lit, hdr+":") && fold
+		}
+		c.check(anchoredStart && anchoredEnd && nameOK && hre.MaxCap() == 1, hwhere+"/shape", P.Pos(hpos), hwhere,
+			"^(?i:"+hdr+"): … (value) … $ — the header name is matched at the start of the line only",
+			fmt.Sprintf("the %s recogniser %q is not anchored to the start/end of the line with the literal name %q followed by a colon: a header whose name merely ends in %q (Content-Location, X-Original-Content-Type) is taken for it", hdr, hp, hdr, hdr))
+	}
 	// parseStatusLine returns matches[1] under len(matches) == 2
 	ps := P.Func("servitor/jtp", "parseStatusLine")
 	psName := FuncName(ps)
